@@ -13,7 +13,13 @@ One `Ev` is one atomic step of one of the threads involved:
   * `advance`   virtual time passes;
   * `closeSetpoint`, `closeRest`   the two halves of `close_link` (the zero set-point goes through `send_packet`,
                 then the link is closed and the patterns are dropped); other threads may run in between;
-  * `linkError` the driver's error callback `_link_error_cb`;
+  * `linkError` the driver's error callback `_link_error_cb` up to the point where it calls the application's callbacks
+                (`connection_failed` / `disconnected` / `connection_lost` / `disconnected_link_error`), `linkErrorEnd` what it does after
+                they returned.  The callbacks may call back into the library (`open_link`, `send_packet`, `close_link`): such a nested
+                history is simply the events between `linkError` and `linkErrorEnd`.  Likewise `closeRest` … `closeEnd` (slot:
+                `disconnected`) and `openLink` … `openEnd` (slot: the connection set-up that `open_link` starts on the new link).
+                Whether the pending timers are cancelled / forgotten BEFORE the slot (`closeEarly`, `errorEarly`, `openEarly`, from
+                Gen) or after it decides in which of the two steps that happens;
   * `openLink`  `open_link` (the part that concerns this mechanism: a new link object becomes `self.link`);
   * `setResend` the driver changes `link.needs_resending` (radio driver, after the safelink negotiation).
 The schedule - every ordering of replies, timer expiries, timer callbacks, closes and re-opens - is the event list.
@@ -123,6 +129,10 @@ structure Cfg where
   errorClears : Bool
   openCancels : Bool
   openClears : Bool
+  /-- the cancelling / forgetting happens before the application callbacks (resp. the connection set-up) run -/
+  closeEarly : Bool
+  errorEarly : Bool
+  openEarly : Bool
 
 /-- the current source, as extracted -/
 def srcCfg : Cfg where
@@ -137,6 +147,9 @@ def srcCfg : Cfg where
   errorClears := Gen.C10.errorClears
   openCancels := Gen.C10.openCancels
   openClears := Gen.C10.openClears
+  closeEarly := Gen.C10.closeForgetsBeforeCallbacks
+  errorEarly := Gen.C10.errorForgetsBeforeCallbacks
+  openEarly := Gen.C10.openForgetsBeforeLink
 
 /-- the code before the D10 repair: a resend transmits whenever a link is open, re-arms whenever the pattern is
 registered (by whichever timer), always with the default timeout; `close_link` drops the patterns but cancels nothing,
@@ -153,6 +166,13 @@ def liveCfg : Cfg where
   errorClears := false
   openCancels := false
   openClears := false
+  closeEarly := true
+  errorEarly := true
+  openEarly := true
+
+/-- the current code with the `_cancel_answer_timers()` of `_link_error_cb` moved behind the application callbacks
+(kept for the counterexample: a reconnect + request from inside `connection_lost` loses its retry timer) -/
+def lateErrorCfg : Cfg := { srcCfg with errorEarly := false }
 
 def cancelT (t : Timer) : Timer := if t.st = .armed then { t with st := .cancelled } else t
 def setSt (st : TSt) (t : Timer) : Timer := { t with st := st }
@@ -224,6 +244,9 @@ inductive Ev
   | closeSetpoint
   | closeRest
   | linkError
+  | closeEnd          -- `close_link` after the `disconnected` callbacks returned
+  | linkErrorEnd      -- `_link_error_cb` after the application callbacks returned
+  | openEnd           -- `open_link` after the connection set-up it started returned
 deriving DecidableEq, Repr
 
 /-- closing the link object (if any) and forgetting it -/
@@ -238,8 +261,9 @@ def forget (cancels clears : Bool) (s : State) : State :=
 
 def step (c : Cfg) (s : State) : Ev → Except Err State
   | .openLink nr =>
-    let s1 := forget c.openCancels c.openClears s
+    let s1 := forget (c.openCancels && c.openEarly) (c.openClears && c.openEarly) s
     .ok { s1 with link := some { sid := s.nextSid, needsResending := nr }, nextSid := s.nextSid + 1 }
+  | .openEnd => .ok (forget (c.openCancels && !c.openEarly) (c.openClears && !c.openEarly) s)
   | .setResend nr =>
     match s.link with
     | some l => .ok { s with link := some { l with needsResending := nr } }
@@ -267,8 +291,10 @@ def step (c : Cfg) (s : State) : Ev → Except Err State
     if c.closeSetpoint && s.link.isSome then
       sendCore c { s with nextReq := s.nextReq + 1 } setpointPk [] c.defaultTimeout s.nextReq none s.now
     else .ok s
-  | .closeRest => .ok (forget c.closeCancels c.closeClears (dropLink s))
-  | .linkError => .ok (forget c.errorCancels c.errorClears (dropLink s))
+  | .closeRest => .ok (forget (c.closeCancels && c.closeEarly) (c.closeClears && c.closeEarly) (dropLink s))
+  | .closeEnd => .ok (forget (c.closeCancels && !c.closeEarly) (c.closeClears && !c.closeEarly) s)
+  | .linkError => .ok (forget (c.errorCancels && c.errorEarly) (c.errorClears && c.errorEarly) (dropLink s))
+  | .linkErrorEnd => .ok (forget (c.errorCancels && !c.errorEarly) (c.errorClears && !c.errorEarly) s)
 
 /-- an exception (or a step that is not enabled) leaves the object as it was -/
 def stepT (c : Cfg) (s : State) (e : Ev) : State :=
@@ -282,11 +308,11 @@ def run (c : Cfg) (s : State) (evs : List Ev) : State := evs.foldl (stepT c) s
 (e.g. `RadioDriver.send_packet` when its out queue stays full).  `_link_error_cb`, called by the thread that is inside
 `send_packet`, only records the error (`Gen.C10.errorCbDefersInsideSend`); `send_packet` runs it right after the lock has been
 released (`Gen.C10.sendRunsDeferredErrorAfterRelease`).  So the critical section completes as usual and - if the packet was handed
-to the link at all, otherwise the driver has nothing to report - the same thread then takes a `linkError` step.
+to the link at all, otherwise the driver has nothing to report - the same thread then runs `_link_error_cb`: `linkError`, `linkErrorEnd`.
 (Other threads may run between the two; that is the event list `[e, …, linkError]`, covered by the theorems about all event lists.) -/
 def stepReportingError (c : Cfg) (s : State) (e : Ev) : State :=
   let s1 := stepT c s e
-  if s1.log.length > s.log.length then stepT c s1 .linkError else s1
+  if s1.log.length > s.log.length then stepT c (stepT c s1 .linkError) .linkErrorEnd else s1
 
 def init : State := {}
 
